@@ -217,8 +217,8 @@ class Driver:
         if self.action_names != ACTIONS[: len(self.action_names)]:
             cl.append('reordered_actions')
         self.ctx.ev.case(None, nt=(self.obs_changes > 0 and self.switches > 0), classes=cl,
-                         key=[self.cfg, self.nops, self.obs_changes, self.switches, id(self) % 10**9],
-                         sample={'cfg': self.cfg, 'via_registry': self.via_registry, 'ops': self.nops, 'observation_changes': self.obs_changes, 'switches': self.switches})
+                         key=getattr(self, 'log', None) or [self.cfg, self.nops],
+                         sample={'op_log (first 40)': getattr(self, 'log', [])[:40], 'cfg': self.cfg, 'via_registry': self.via_registry, 'ops': self.nops, 'observation_changes': self.obs_changes, 'switches': self.switches})
 
 
 def machine(tier, ctx, last):
